@@ -41,8 +41,36 @@ def generate(rng, tier, count):
         yield C.gen_comp_scenario(rng)
 
 
-run_impl = C.run_comp
-oracle = C.oracle_comp
+def run_impl(sc):
+    return C.run_gc_witness(sc) if sc.lines[0] == C.GC_WITNESS[0] else C.run_comp(sc)
+
+
+def _pending_open():
+    """open findings of the fragment known_findings.d/C17.txt that the merged known_findings.txt (rewritten by
+    tools/mkmanifest.py at integration; core reads only that file) does not list yet: until then their clauses are kept
+    out of the failures here (the tag `known:G16-…` still counts them); afterwards core's KNOWN path handles them"""
+    import os
+    import re
+
+    def ids(path):
+        if not os.path.exists(path):
+            return set()
+        return {m.group(1) for l in open(path) if (m := re.match(r"open: property=C17 (\S+) ", l))}
+
+    return ids(os.path.join(core.VERIF, "known_findings.d", "C17.txt")) - ids(os.path.join(core.VERIF, "known_findings.txt"))
+
+
+_PENDING = None
+
+
+def oracle(sc, obs):
+    global _PENDING
+    if _PENDING is None:
+        _PENDING = _pending_open()
+    cls = C.oracle_gc_witness(sc, obs) if sc.lines[0] == C.GC_WITNESS[0] else C.oracle_comp(sc, obs)
+    return [c for c in cls if not any(KNOWN[i]["matches"](sc, c) for i in _PENDING if i in KNOWN)]
+
+
 tags = C.tags_comp
 
 
@@ -57,7 +85,14 @@ def _has_progs(sc):
     return any(C.parse_header(sc.lines[0])[1].values())
 
 
-KNOWN = {}     # G7 (a handler that reads a Computable while notified) is repaired; witness: corpus/C17/G7-*.ops
+# open findings (known_findings.d/C17.txt).  G16: the clause is only given to a value served without running the function, on
+# remembered values that are no longer the present ones, in a scenario in which a function other than the one read at top
+# level has assigned an Observable (inside another function or inside a dirty pre-check); G17: only the witness (owners'
+# deaths are not generated: they are not in the model)
+KNOWN = {
+    "G16": {"scenario": C.G16_WITNESS, "matches": lambda sc, clause: clause.startswith("stale-after-nested-write:")},
+    "G17": {"scenario": C.GC_WITNESS, "matches": lambda sc, clause: clause.startswith("stale-after-owner-collected:")},
+}
 
 
 def extra(ctx):
